@@ -92,6 +92,42 @@ def run(rep, work, tier, seed, props, replay=None):
     for i in sorted(bad, key=lambda i: len(builders[i].stmts))[:6]:
         rep.violation({"kind": "values or gradients differ from the equivalent purely functional program (Model/GraphP.v on the functional meaning of the updates; its gradients are the total derivative, Props/C01.v)",
                        "stmts": builders[i].stmts, "impl_final": results[i]["observations"][-1]["obs"]})
+    # operation sweep: for every catalogue operation, an operand (an intermediate W = 2*P) is updated in place AFTER the forward pass
+    # (W[...] = v, W *= c, through a view, ufunc out=W); backward through the old result must give the gradients of the program without the update
+    kf = {f["name"]: f for f in known_findings("C05") if f["status"] == "known"}
+    mu_hist, mu_bad, mu_known = {}, 0, 0
+    if replay is None or "mutate_index" in (replay or {}):
+        hows = ([0, 1, 2, 3] if tier == "thorough" else [0, 3]) if replay is None else [replay.get("how", 0)]
+        shown = set()
+        from common import run_impl_parallel
+        info = run_impl_parallel("ops_impl.py", [{"list": True}])[0]
+        idx = list(range(info["n"])) if replay is None else [replay["mutate_index"]]
+        opnds = ([0, 1, 2] if tier == "thorough" else [0, 1]) if replay is None else [replay.get("operand", 0)]
+        tasks = [{"index": i, "mode": "mutate", "seed": seed, "operand": k, "how": h} for i in idx for k in opnds for h in hows]
+        parts = [tasks[i::16] for i in range(16)]
+        flat = [t for p2 in parts for t in p2]
+        mres = []
+        for rr in run_impl_parallel("ops_impl.py", [{"tasks": p2} for p2 in parts if p2]):
+            mres.extend(rr["results"])
+        for t, r in zip(flat, mres):
+            if "harness_error" in r:
+                from common import HarnessError
+                raise HarnessError("ops_impl (mutate): " + r["harness_error"])
+            o = r["outcome"]
+            mu_hist[o] = mu_hist.get(o, 0) + 1
+            if o in ("exact", "identity", "view"):
+                continue
+            if r["label"].startswith("gru") and "gru_operand_updated_in_place_after_forward" in kf:
+                mu_known += 1
+                continue
+            mu_bad += 1
+            key = r["label"].split("(")[0].split(" ")[0]
+            if key not in shown and len(shown) < 6:
+                shown.add(key)
+                rep.violation({"kind": "operation sweep: an operand of %s was updated in place after the forward pass; backward through the old result: %s%s" % (
+                    r["label"], o, " (%s)" % r["which"] if r.get("which") else ""), "mutate_index": t["index"], "operand": t["operand"], "how": t["how"], "seed": t["seed"], "result": r})
+        if mu_known:
+            rep.known("gru_operand_updated_in_place_after_forward", "%s (%d catalogue runs)" % (kf["gru_operand_updated_in_place_after_forward"]["what"][:160], mu_known))
     if not props["ok"]:
         rep.violation({"kind": "proof obligations of Props/C05.v no longer check", "broken": "Props/C05.v", "log": props["log"][-1500:]}, no_input=not (bad or raised))
 
@@ -101,7 +137,8 @@ def run(rep, work, tier, seed, props, replay=None):
         return bool(muts) and any(r < muts[-1] for r in reads) and any(r > muts[0] for r in reads) and len(set(b.fam.values())) < len(b.fam)
     nt = set(progs.canonical(b) for b in builders if nontrivial(b))
     rep.coverage.update({
-        "evaluations": len(builders),
+        "evaluations": len(builders) + sum(mu_hist.values()),
+        "operation_mutate_sweep_outcomes": mu_hist, "operation_mutate_sweep_violations": mu_bad,
         "distinct_nontrivial": len(nt),
         "rule": "C04 family histories (views of views, reads, setitem basic/int-array(repeated)/bool with broadcast values, augmented assignment, out= with/without where=) plus extra read/mutate rounds, "
                 "then L = sum_i sum(t_i * w_i) over 1-4 live tensors and L.backward(); non-trivial = a mutation on a family with >= 2 live members with reads before and after it; distinct = distinct statement list",
